@@ -29,7 +29,7 @@ var explicitStems = map[string]string{
 
 // stemPair: do the two function names form a writer/reader name pair?
 func stemPair(w, r string) bool {
-	for _, p := range [][2]string{{"Write", "Read"}, {"write", "read"}, {"ToBytes", "ToObject"}, {"toBytes", "toObject"}} {
+	for _, p := range [][2]string{{"Write", "Read"}, {"write", "read"}, {"ToBytes", "ToObject"}, {"toBytes", "toObject"}, {"encode", "decode"}, {"Encode", "Decode"}} {
 		if strings.HasPrefix(w, p[0]) && strings.HasPrefix(r, p[1]) && w[len(p[0]):] == r[len(p[1]):] {
 			return true
 		}
